@@ -17,6 +17,7 @@ import (
 	"github.com/cockroachdb/errors/join"
 	"github.com/cockroachdb/errors/secondary"
 	"github.com/cockroachdb/errors/withstack"
+	"github.com/cockroachdb/logtags"
 	"google.golang.org/grpc/codes"
 
 	"verifharness/core"
@@ -145,7 +146,35 @@ var bg = context.Background()
 func nilTable() []nilCase {
 	ref := goErr.New("r")
 	var n error
+	tagged := logtags.AddTag(logtags.AddTag(context.Background(), "k", "v"), "n", 1)
+	link := errors.IssueLink{IssueURL: "u", Detail: "d"}
 	return []nilCase{
+		// the same constructors on their "rich argument" paths
+		{"errors.WithContextTags(tagged ctx)", func() error { return errors.WithContextTags(n, tagged) }},
+		{"errors.WithIssueLink(link)", func() error { return errors.WithIssueLink(n, link) }},
+		{"errors.WithTelemetry(keys)", func() error { return errors.WithTelemetry(n, "a", "b") }},
+		{"errors.WithSafeDetails(args)", func() error { return errors.WithSafeDetails(n, "x %s %v", "a", errors.Safe(1)) }},
+		{"errors.Wrapf(error arg)", func() error { return errors.Wrapf(n, "x %v", ref) }},
+		{"errors.WrapWithDepthf(error arg)", func() error { return errors.WrapWithDepthf(0, n, "x %v", ref) }},
+		{"errors.Wrapf(args only)", func() error { return errors.Wrapf(n, "", ref) }},
+		{"errors.Wrap(empty)", func() error { return errors.Wrap(n, "") }},
+		{"errors.WithMessagef(args)", func() error { return errors.WithMessagef(n, "x %s", "a") }},
+		{"errors.WithHintf(args)", func() error { return errors.WithHintf(n, "x %s", "a") }},
+		{"errors.WithDetailf(args)", func() error { return errors.WithDetailf(n, "x %s", "a") }},
+		{"errors.NewAssertionErrorWithWrappedErrf(error arg)", func() error { return errors.NewAssertionErrorWithWrappedErrf(n, "x %v", ref) }},
+		{"errors.HandledInDomainWithMessage(named)", func() error { return errors.HandledInDomainWithMessage(n, errors.NamedDomain("d"), "m") }},
+		{"errors.WithDomain(package domain)", func() error { return errors.WithDomain(n, errors.PackageDomain()) }},
+		{"errors.EnsureNotInDomain(constructor)", func() error {
+			return errors.EnsureNotInDomain(n, func(errors.Domain, error) error { return ref }, errors.NoDomain)
+		}},
+		{"errors.Mark(library ref)", func() error { return errors.Mark(n, errors.New("x")) }},
+		{"errors.WithSecondaryError(library secondary)", func() error { return errors.WithSecondaryError(n, errors.New("x")) }},
+		{"barriers.HandledWithMessagef(error arg)", func() error { return barriers.HandledWithMessagef(n, "x %v", ref) }},
+		{"exthttp.WrapWithHTTPCode(500)", func() error { return exthttp.WrapWithHTTPCode(n, 500) }},
+		{"extgrpc.WrapWithGrpcCode(Unknown)", func() error { return extgrpc.WrapWithGrpcCode(n, codes.Unknown) }},
+		{"extgrpc.WrapWithGrpcCode(OK)", func() error { return extgrpc.WrapWithGrpcCode(n, codes.OK) }},
+		{"grpc/status.WrapErrf(error arg)", func() error { return gstatus.WrapErrf(codes.Internal, n, "x %v", ref) }},
+		{"errors.JoinWithDepth(nil,nil,nil)", func() error { return errors.JoinWithDepth(2, n, n, n) }},
 		{"errors.Wrap", func() error { return errors.Wrap(n, "x") }},
 		{"errors.Wrapf", func() error { return errors.Wrapf(n, "x %d", 1) }},
 		{"errors.WrapWithDepth", func() error { return errors.WrapWithDepth(0, n, "x") }},
@@ -217,7 +246,9 @@ func nilSweep(c *core.Ctx) {
 		c.Count("nil-constructor-calls", 1)
 		c.Cover("nil-constructors", nc.name)
 		if e != nil {
-			c.Violate("nil/"+nc.name, "wrapper constructor returns non-nil for a nil error", fmt.Sprintf("%s(nil) = %T %q", nc.name, e, e.Error()))
+			txt := "(Error() panics)"
+			core.Try(func() { txt = e.Error() })
+			c.Violate("nil/"+nc.name, "wrapper constructor returns non-nil for a nil error", fmt.Sprintf("%s(nil) = %T %q", nc.name, e, txt))
 		}
 	}
 	ref := goErr.New("r")
